@@ -11,5 +11,6 @@ CONSTANTS
   Known = {"D_CTE_VISIBLE_IN_OWN_BODY"}
   Emit = FALSE
   Clauses = {"where", "isub", "having", "union"}
+  DefSchemas = {"none", "s", "dflt_x"}
 INVARIANT Report
 CHECK_DEADLOCK FALSE
